@@ -124,7 +124,8 @@ SeqSet(s) == {s[i] : i \in 1..Len(s)}
 \* concatenated traces: start over with the configuration of the next run
 TReset ==
   /\ Is("Reset") /\ Quiet
-  /\ cfg' = [comps |-> SeqSet(Ev.comps), span |-> Ev.span, il |-> Ev.il, nb |-> Ev.nb]
+  /\ cfg' = [comps |-> SeqSet(Ev.comps), il |-> Ev.il, nb |-> Ev.nb,
+             ranges |-> {[g |-> r[1], lo |-> r[2], hi |-> r[3]] : r \in SeqSet(Ev.ranges)}]
   /\ port' = [c \in Gpus |-> NoPorts]
   /\ tab' = [c \in Gpus |-> [ins |-> <<>>, outs |-> <<>>]]
   /\ ctl' = [c \in Gpus |-> [draining |-> FALSE, paused |-> FALSE, src |-> NoPort]]
